@@ -10,6 +10,10 @@ stdout: {"results": [{"trace":[...], "terminal":str, "choices":[[idx,nopts],..],
 
 trace entries: ["run", actor, [[S|E,item,task],..]]   one task step and the log events it emitted
                ["env", action, arg]                    action in done|raise|item|none|srcraise|stop|conc
+
+"mode": "table" (property-only runs, not replayed by the model): the source is SYNCHRONOUS and GROWING like wpull's
+URL table - get_item() never suspends, returns the next pending id or None; an item that completes its last task
+adds up to "fanout" children (n = total ever created); with "sync_tasks" percent of the task calls do not suspend.
 """
 import json
 import os
@@ -68,6 +72,30 @@ class Director:
         self.effective_stops = 0
         self.forced_unpause = 0
         self.last_ready = []
+        self.mode = case.get('mode', 'async')
+        self.fanout = case.get('fanout', 2)
+        self.sync_tasks = case.get('sync_tasks', 0)
+        self.rnd2 = random.Random(case.get('seed', 0) * 7919 + 13)     # decisions that are not scheduling choices
+        self.pool = []
+        self.created = 0
+        if self.mode == 'table' and case['n'] > 0:
+            self.pool.append(1)
+            self.created = 1
+
+    # -- table mode: the growing synchronous source -------------------------------
+    def table_get(self):
+        if self.pool:
+            item = self.pool.pop(0)
+            self.yielded.append(item)
+            self.trace.append(['env', 'item', item, 'sync'])
+            return item
+        return None
+
+    def table_children(self, item):
+        k = min(self.rnd2.randint(0, self.fanout), self.case['n'] - self.created)
+        for _ in range(k):
+            self.created += 1
+            self.pool.append(self.created)
 
     # -- naming ---------------------------------------------------------------
     def name_task(self, coro):
@@ -89,7 +117,7 @@ class Director:
             oblig.append(('done', item))
             if self.raises > 0:
                 oblig.append(('raise', item))
-        if self.src_fut is not None and not self.src_fut.done():
+        if self.mode != 'table' and self.src_fut is not None and not self.src_fut.done():
             if self.n_left > 0:
                 oblig.append(('item', self.next_item))
             if self.n_left == 0 or self.nones > 0:
@@ -176,6 +204,11 @@ class Director:
             if self.pipeline._state == P.PipelineState.running:
                 self.effective_stops += 1
                 self.trace[-1].append('effective')
+                q = self.pipeline._item_queue
+                if q._queue.qsize() > 0 and len(q._worker_ready_condition._waiters) > 0:
+                    self.trace[-1].append('producer-parked')       # the F26 situation
+                if self.pipeline._concurrency == 0:
+                    self.trace[-1].append('paused')                # the F31 situation
             self.pipeline.stop()
         elif kind == 'conc':
             if self.conc_budget > 0:
@@ -194,6 +227,8 @@ def run_case(case):
     class Src(P.ItemSource):
         @asyncio.coroutine
         def get_item(self):
+            if d.mode == 'table':
+                return d.table_get()
             fut = loop.create_future()
             d.src_fut = fut
             try:
@@ -207,10 +242,13 @@ def run_case(case):
             @asyncio.coroutine
             def process(self, item):
                 d.events.append(['S', item, k])
-                fut = loop.create_future()
-                d.inflight.append([item, k, fut])
-                yield from fut
+                if not (d.mode == 'table' and d.rnd2.randrange(100) < d.sync_tasks):
+                    fut = loop.create_future()
+                    d.inflight.append([item, k, fut])
+                    yield from fut
                 d.events.append(['E', item, k])
+                if d.mode == 'table' and k == case['t'] - 1:
+                    d.table_children(item)
         return T()
 
     pipeline = P.Pipeline(Src(), [make_task(k) for k in range(case['t'])])
@@ -242,7 +280,7 @@ def run_case(case):
     KEEP.append((loop, pipeline, d))          # no finalisers before os._exit
     return {'trace': d.trace, 'terminal': d.terminal, 'choices': d.choice_log, 'yielded': d.yielded,
             'effective_stops': d.effective_stops, 'forced_unpause': d.forced_unpause, 'final': state,
-            'workers': d.worker_count}
+            'workers': d.worker_count, 'pool_left': len(d.pool), 'created': d.created}
 
 
 def enumerate_runs(case, max_runs):
